@@ -1,7 +1,7 @@
 """W-kafka: the Kafka client built by Kafka.NewBuilder() (router, heap balancer,
 serializer, shared sink, resurrector, Kafka mux transport) against simulated
 v0 brokers that parse every request with the harness's own parser (C15)."""
-PROPS = ('C15',)
+PROPS = ('C15', 'C11')
 RACE_PROBES = ('replies_reordered', 'concurrent_puts', 'metadata_refreshed', 'error_code_reply',
                'empty_payload_list', 'large_payload', 'binary_payload', 'retry_after_not_leader')
 SHRINK_KEYS = ('ops',)
@@ -63,7 +63,12 @@ def generate(rng, tier='quick', **kw):
         isr = [r for r in reps if r == leader or rng.random() < 0.5]
         parts.append([rng.choice([0, 0, 9]), pid, leader, reps, isr])
       extra[rng.choice(['zz', '', 'creating', 'é'.encode().decode('latin-1')]) + str(xi)] = parts
+  topic_err = {}
+  for name in extra:
+    if rng.random() < 0.5:
+      topic_err[name] = rng.choice([3, 5])
   return {'world': 'w_kafka', 'brokers': n_brokers, 'topics': topics, 'ops': ops, 'meta_extra': extra,
+          'meta_topic_err': topic_err,
           'bootstrap': sorted(rng.sample(range(n_brokers), rng.randint(1, n_brokers))),
           'net': {'chunk': rng.choice(['none', 'some', 'bytes']), 'jitter': rng.choice([0.0, 0.0005])},
           'unknown_topic': rng.random() < 0.1}
@@ -97,6 +102,7 @@ def run(scn):
   tracker.id_from_args = lambda args, kwargs: by_list.get(id(args[1])) if len(args) > 1 else None
   matched = {}
   sent_meta, got_meta = [], []
+  pending_corr = {}
   sent_produce, got_produce = [], []
 
   class W(object):
@@ -109,8 +115,14 @@ def run(scn):
               for name, parts in topics.items()}
         for name, parts in (scn.get('meta_extra') or {}).items():
           tl[name.encode()] = [tuple(p) for p in parts]
+        # topics the broker reports with a topic-level error (unknown, being
+        # created): the entry is still there, with whatever partitions it lists
+        terr = dict((name.encode(), code) for name, code in (scn.get('meta_topic_err') or {}).items())
+        if terr:
+          # an errored topic in front of the ones that are produced to
+          tl = dict([(k, tl[k]) for k in sorted(tl, key=lambda k: (k not in terr, k))])
         sent_meta.append((bl, tl))
-        out = encode_metadata(corr, bl, tl)
+        out = encode_metadata(corr, bl, tl, terr)
         conn.server_send(struct.pack('!i', len(out)) + out, 0.001)
         return
       # produce
@@ -130,6 +142,15 @@ def run(scn):
         return
       matched.setdefault(call.id, []).append(req)
       req['call'] = call
+      # the correlation id is the multiplexing tag: no two unanswered requests
+      # on one connection may carry the same one
+      pend = pending_corr.setdefault(conn.id, {})
+      if corr in pend and req['acks'] != 0:
+        REC.violation('C11', 'duplicate_tag',
+                      'Put %s on conn %s carries correlation id %d which unanswered Put %s also carries' % (
+                        call.id, conn.id, corr, pend[corr]))
+      if req['acks'] != 0:
+        pend[corr] = call.id
       spec = call.spec['svc']
       if req['acks'] == 0:
         return                                    # Kafka sends no response for acks=0
@@ -156,6 +177,7 @@ def run(scn):
         out = encode_produce_response(corr, pr[0]['topic'], part, err, off)
       sent_produce.append(entries)
       conn.server_send(struct.pack('!i', len(out)) + out, spec.get('delay', 0.001))
+      loop.schedule(spec.get('delay', 0.001), pending_corr.get(conn.id, {}).pop, corr, None, kind='kafka.answered')
       if err:
         REC.probe('error_code_reply')
   world = W()
